@@ -1,12 +1,25 @@
 /-
 C08 — long-running operations.
-  gapic/schema/metadata.py : Address.resolve
-  gapic/schema/api.py      : API.build (two passes), _ProtoBuilder.api_messages, _maybe_get_lro
-  gapic/schema/wrappers.py : Method._client_output
+  gapic/schema/metadata.py : Address.resolve, Address.module_alias (the name under which api-core's `operation`
+                             module is imported and called)
+  gapic/schema/api.py      : API.build (two passes), _ProtoBuilder.api_messages, _maybe_get_lro, _get_methods
+                             (`loadService`: the first bad method aborts the build), API.http_options
+  gapic/schema/wrappers.py : Method._client_output, Service.has_lro, HttpRule.try_parse_http_rule
   templates                : _client_macros.j2 / async_client.py.j2 (`from_gapic` wrapping),
-                             transports/grpc*.py.j2, rest.py.j2 (`operations_client`)
-  google.api_core          : operation.Operation / operation_async.AsyncOperation (polling; runtime shell,
-                             modelled as "the first done operation decides")
+                             transports/grpc*.py.j2, rest.py.j2 (`operations_client`, its http-options table)
+  google.api_core          : operation.Operation / operation_async.AsyncOperation (runtime shell): polling modelled as
+                             "the first done operation decides"; `metadata`, `done`, `running`, `cancel`, `result`,
+                             `exception` as a small command language over the cached operation (`step`/`exec`);
+                             operations_v1 REST transport's choice of the GetOperation URL (`opsGetPath`).
+
+NOT modelled (reached only through T3, or not at all):
+  * `OperationInfo.with_context` / `Method.ref_types` / `Service.names` (which modules the emitted client imports and which
+    collisions arise): the collision set is an INPUT of `moduleAlias`; T3 observes the result at run time.
+  * `utils.convert_uri_fieldnames` inside `try_parse_http_rule` (identity on the Operations rules used here).
+  * api-core's retry/sleep schedule, deadlines, `CancelOperation`/`DeleteOperation` transcoding for REST, and the
+    mapping status code -> exception class (compared in T3 through api-core's own table).
+  * extended operations (`google.cloud.operation_service`): not in the statement; only the branch order of `_client_output`.
+  * the REST transport parsing the RPC's reply as `operations_pb2.Operation` (json_format), rest_asyncio (not selectable).
 -/
 namespace GapicModel.Model.Lro
 
@@ -228,5 +241,214 @@ def callTrace (t : Transport) (path : Str) (w : Wrap) (first : OpState) (replies
   | .raw => [(t.channel, path)]
   | .future ops _ _ =>
     (t.channel, path) :: List.replicate (poll first replies).2 (ops.channel, "/google.longrunning.Operations/GetOperation".toList)
+
+/-! ### Whole service (`_ProtoBuilder._get_methods`): methods are loaded in declaration order, the first exception aborts -/
+
+def loadService (api : Api) (f : File) : List Method → Except Err (List (Option (Str × Str)))
+  | [] => .ok []
+  | m :: ms =>
+    match lroInfo api f m with
+    | .error e => .error e
+    | .ok x =>
+      match loadService api f ms with
+      | .error e => .error e
+      | .ok xs => .ok (x :: xs)
+
+/-- `Service.has_lro`: the transport gets an `operations_client` iff some method has `lro` -/
+def hasLro (xs : List (Option (Str × Str))) : Bool := xs.any Option.isSome
+
+/-! ### `Address.module_alias` (name of api-core's `operation` module inside the emitted client) -/
+
+/-- Python `s.split(c)` for a one-character separator -/
+def splitOn (c : Char) : Str → List Str
+  | [] => [[]]
+  | x :: xs =>
+    let r := splitOn c xs
+    if x = c then [] :: r else
+    match r with
+    | [] => [[x]]
+    | h :: t => (x :: h) :: t
+
+/-- `"".join(p[0] for i in package for p in i.split("_") if i != version)`; `none` = IndexError (an empty piece) -/
+def initials (pkg : List Str) (version : Str) : Option Str :=
+  ((pkg.filter (· != version)).flatMap (splitOn '_')).mapM List.head?
+
+/-- `Address.module_alias`: `""` unless the module name collides (or is reserved), else `<initials>_<module>` -/
+def moduleAlias (pkg : List Str) (module version : Str) (collisions reserved : List Str) : Option Str :=
+  if collisions.contains module || reserved.contains module then (initials pkg version).map (· ++ '_' :: module)
+  else some []
+
+/-- `ident.module_alias or ident.module`: the name the import statement binds AND the emitted call uses -/
+def boundName (alias module : Str) : Str := if alias = [] then module else alias
+
+/-- `_client_output(enable_asyncio).ident.module` -/
+def futureModule (async : Bool) : Str :=
+  if async then ['o','p','e','r','a','t','i','o','n','_','a','s','y','n','c'] else ['o','p','e','r','a','t','i','o','n']
+
+/-- `package=("google", "api_core")` of the PythonType built by `_client_output` -/
+def apiCorePackage : List Str := [['g','o','o','g','l','e'], ['a','p','i','_','c','o','r','e']]
+
+/-- what the emitted client contains for an LRO method: the import of api-core's module and the constructor call -/
+structure FutureCode where
+  importModule : Str        -- `from google.api_core import <importModule>`
+  importAs : Str            -- `… as <importAs>` (equal to importModule when there is no alias)
+  callee : Str              -- `<callee>.from_gapic(…)`
+deriving Repr, DecidableEq
+
+def futureCode (async : Bool) (version : Str) (collisions reserved : List Str) : Option FutureCode :=
+  let m := futureModule async
+  (moduleAlias apiCorePackage m version collisions reserved).map fun a =>
+    ⟨m, boundName a m, boundName a m⟩
+
+/-! ### The REST operations client: http-options table (`API.http_options`, rest.py.j2) and the poll URL -/
+
+/-- one `google.api.HttpRule` binding: `verb` = `WhichOneof("pattern")` ("" when unset) -/
+structure Binding where
+  verb : Str
+  uri : Str
+  body : Str
+deriving Repr, DecidableEq
+
+structure YamlRule where
+  selector : Str
+  primary : Binding
+  additional : List Binding
+deriving Repr, DecidableEq
+
+structure Row where
+  method : Str
+  uri : Str
+  body : Option Str
+deriving Repr, DecidableEq
+
+/-- `HttpRule.try_parse_http_rule` (with `convert_uri_fieldnames` = identity, see header) -/
+def parseBinding (reserved : List Str) (b : Binding) : Option Row :=
+  if b.verb = [] ∨ b.verb = "custom".toList then none
+  else if b.uri = [] then none
+  else some ⟨b.verb, b.uri, if b.body = [] then none else some (if reserved.contains b.body then b.body ++ ['_'] else b.body)⟩
+
+def ruleRows (reserved : List Str) (r : YamlRule) : List Row := (r.primary :: r.additional).filterMap (parseBinding reserved)
+
+/-- dict assignment `d[k] = v` keeping the first insertion position -/
+def dictSet {β : Type} (d : List (Str × β)) (k : Str) (v : β) : List (Str × β) :=
+  if d.any (·.1 == k) then d.map (fun e => if e.1 == k then (k, v) else e) else d ++ [(k, v)]
+
+/-- `API.http_options`: `{rule.selector: make_http_options(rule) for rule in service_yaml.http.rules}` -/
+def httpOptions (reserved : List Str) (rules : List YamlRule) : List (Str × List Row) :=
+  rules.foldl (fun d r => dictSet d r.selector (ruleRows reserved r)) []
+
+/-- rest.py.j2: only selectors starting with `google.longrunning.Operations` reach the operations transport -/
+def opsHttpTable (reserved : List Str) (rules : List YamlRule) : List (Str × List Row) :=
+  (httpOptions reserved rules).filter fun e => "google.longrunning.Operations".toList.isPrefixOf e.1
+
+inductive Seg where
+  | lit (s : Str) | star | dstar
+deriving Repr, DecidableEq
+
+/-- `path_template.validate` on slash-separated names with non-empty segments: `*` one segment, `**` one or more -/
+def matchSegs : List Seg → List Str → Bool
+  | [], [] => true
+  | [], _ :: _ => false
+  | _ :: _, [] => false
+  | .lit s :: ps, x :: xs => x == s && matchSegs ps xs
+  | .star :: ps, _ :: xs => matchSegs ps xs
+  | .dstar :: ps, _ :: xs => matchSegs ps xs || matchSegs (.dstar :: ps) xs
+
+def segOf (s : Str) : Seg := if s = ['*'] then .star else if s = ['*', '*'] then .dstar else .lit s
+
+/-- a uri template with exactly one variable, `{name=pattern}` or `{name}`: (prefix, pattern, suffix) -/
+structure NameTemplate where
+  pre : Str
+  pattern : List Seg
+  post : Str
+deriving Repr, DecidableEq
+
+def takeUntil (c : Char) : Str → Str × Option Str
+  | [] => ([], none)
+  | x :: xs => if x = c then ([], some xs) else let r := takeUntil c xs; (x :: r.1, r.2)
+
+/-- parse `pre{name=pattern}post`; `none` when the template has no `{name…}` variable of that shape -/
+def parseNameTemplate (uri : Str) : Option NameTemplate :=
+  match takeUntil '{' uri with
+  | (_, none) => none
+  | (pre, some rest) =>
+    match takeUntil '}' rest with
+    | (_, none) => none
+    | (var, some post) =>
+      match takeUntil '=' var with
+      | (n, none) => if n = "name".toList then some ⟨pre, [.star], post⟩ else none
+      | (n, some pat) => if n = "name".toList then some ⟨pre, (splitOn '/' pat).map segOf, post⟩ else none
+
+/-- `path_template.transcode` over the rows of GetOperation for a request that only carries `name`:
+the first row whose template accepts the name gives the URL -/
+def transcodeName (rows : List Row) (name : Str) : Option (Str × Str) :=
+  rows.findSome? fun row =>
+    match parseNameTemplate row.uri with
+    | none => none
+    | some t => if matchSegs t.pattern (splitOn '/' name) then some (row.method, t.pre ++ name ++ t.post) else none
+
+def getOperationSelector : Str := "google.longrunning.Operations.GetOperation".toList
+
+/-- `OperationsRestTransport._get_operation`: the table entry for GetOperation when present, else the default
+`/{path_prefix}/{name=**/operations/*}` with `path_prefix = service.client_package_version` -/
+def opsGetPath (table : List (Str × List Row)) (pathPrefix name : Str) : Option (Str × Str) :=
+  let rows := match table.find? (·.1 == getOperationSelector) with
+    | some e => e.2
+    | none => [⟨"get".toList, '/' :: pathPrefix ++ "/{name=**/operations/*}".toList, none⟩]
+  transcodeName rows name
+
+/-! ### The future as an object: `metadata`, `done()`, `running()`, `cancel()`, `result()`, `exception()` -/
+
+inductive Cmd where
+  | metadata | done | running | cancel | result | exception
+deriving Repr, DecidableEq
+
+inductive Obs where
+  | md (r : Option Res)
+  | flag (b : Bool)
+  | res (r : Res)
+  | exc (r : Option Res)     -- `exception()`: `None` for a successful operation
+deriving Repr, DecidableEq
+
+/-- the future's state: the cached operation, the server's remaining GetOperation replies, and what it has sent -/
+structure Fut where
+  cached : OpState
+  pending : List OpState
+  polls : Nat
+  cancels : Nat
+deriving Repr, DecidableEq
+
+/-- `_refresh_and_update`: one GetOperation unless the cached operation is done -/
+def Fut.refresh (s : Fut) : Fut :=
+  if s.cached.done then s else
+  match s.pending with
+  | [] => s
+  | r :: rs => { s with cached := r, pending := rs, polls := s.polls + 1 }
+
+/-- `_blocking_poll`: refresh until done -/
+def Fut.drain (s : Fut) : Fut :=
+  let p := poll s.cached s.pending
+  { s with cached := p.1, pending := s.pending.drop p.2, polls := s.polls + p.2 }
+
+def step (rt mt : Str) (s : Fut) : Cmd → Fut × Obs
+  | .metadata => (s, .md (metadataOf mt s.cached))
+  | .done => let s' := s.refresh; (s', .flag s'.cached.done)
+  | .running => let s' := s.refresh; (s', .flag (!s'.cached.done))
+  | .cancel =>
+    let s' := s.refresh
+    if s'.cached.done then (s', .flag false) else ({ s' with cancels := s'.cancels + 1 }, .flag true)
+  | .result => let s' := s.drain; (s', .res (settle rt s'.cached))
+  | .exception =>
+    let s' := s.drain
+    (s', .exc (match settle rt s'.cached with | .ok _ _ => none | r => some r))
+
+def exec (rt mt : Str) (s : Fut) : List Cmd → Fut × List Obs
+  | [] => (s, [])
+  | c :: cs =>
+    let p := step rt mt s c
+    let q := exec rt mt p.1 cs
+    (q.1, p.2 :: q.2)
+
+def Fut.init (first : OpState) (replies : List OpState) : Fut := ⟨first, replies, 0, 0⟩
 
 end GapicModel.Model.Lro
